@@ -134,29 +134,37 @@ Fixpoint retry (fuel : nat) (count : N) (k : rkind) (excl : list str) (name : st
 Definition empty_name (o : opts) : str :=
   match o_empty o with [] => [c_us] | e => e end.
 
-(* the part of get_valid_name before the final retry loop: the stem *)
-Definition stem (k : rkind) (o : opts) (ignore_snake : bool) (name0 : str) : option str :=
+(* the part of get_valid_name before the final retry loop, in three steps *)
+
+(* 1. empty name, leading #, snake_to_upper_camel with the original delimiter *)
+Definition initial_name (o : opts) (ignore_snake : bool) (name0 : str) : str :=
   let name := match name0 with [] => empty_name o | _ => name0 end in
   let name := match name with
               | c :: r => if c =? c_hash then (match r with [] => empty_name o | _ => r end) else name
               | [] => name
               end in
-  let name := if o_snake o && negb ignore_snake
-              then match o_delim o with Some d => s2uc d name | None => name end
+  if o_snake o && negb ignore_snake
+  then match o_delim o with Some d => s2uc d name | None => name end
+  else name.
+
+(* 2. on the sanitised characters: special prefix, leading underscores *)
+Definition pre_stem (o : opts) (n1 : str) : str :=
+  let name := if hd_is isnumeric n1 || negb (hd_is xids n1)
+              then o_prefix o ++ c_us :: n1 else n1 in
+  let name := if hd_is (N.eqb c_us) name
+              then (if o_remove o then strip_us name else o_prefix o ++ name)
               else name in
-  match name with
-  | [] => None
-  | _ =>
-    let name := map sanitize name in
-    let name := if hd_is isnumeric name || negb (hd_is xids name)
-                then o_prefix o ++ c_us :: name else name in
-    let name := if hd_is (N.eqb c_us) name
-                then (if o_remove o then strip_us name else o_prefix o ++ name)
-                else name in
-    let name := if negb (hd_is xids name) then o_prefix o ++ c_us :: name else name in
-    let name := if o_cap o || (o_snake o && negb ignore_snake) then camel_to_snake name else name in
-    let name := if iskeyword name || negb (validate k name) then name ++ [c_us] else name in
-    Some name
+  if negb (hd_is xids name) then o_prefix o ++ c_us :: name else name.
+
+(* 3. snake casing, keyword / base-class attribute suffix *)
+Definition post_stem (k : rkind) (o : opts) (ignore_snake : bool) (n4 : str) : str :=
+  let name := if o_cap o || (o_snake o && negb ignore_snake) then camel_to_snake n4 else n4 in
+  if iskeyword name || negb (validate k name) then name ++ [c_us] else name.
+
+Definition stem (k : rkind) (o : opts) (ignore_snake : bool) (name0 : str) : option str :=
+  match initial_name o ignore_snake name0 with
+  | [] => None   (* name[0] raises IndexError *)
+  | n => Some (post_stem k o ignore_snake (pre_stem o (map sanitize n)))
   end.
 
 Definition get_valid_name_plain (fuel : nat) (k : rkind) (o : opts) (excl : list str)
@@ -196,6 +204,23 @@ Definition field_name_and_alias (fuel : nat) (k : rkind) (o : opts) (aliases : l
       match get_valid_name fuel k o excl false field with
       | Ok v => Ok2 v (if o_noalias o || str_eqb field v then None else Some field)
       | r => Fail2 r
+      end
+  end.
+
+(* parse_object_fields / parse_enum: names are assigned in order, each call excluding the names
+   already given in this class (jsonschema.py: exclude_field_names) *)
+Fixpoint assign_names (k : rkind) (o : opts) (aliases : list (str * str)) (excl : list str)
+         (fields : list str) : option (list (str * option str)) :=
+  match fields with
+  | [] => Some []
+  | f :: r =>
+      match field_name_and_alias (2 + List.length excl) k o aliases excl f with
+      | Ok2 v a =>
+          match assign_names k o aliases (v :: excl) r with
+          | Some l => Some ((v, a) :: l)
+          | None => None
+          end
+      | Fail2 _ => None
       end
   end.
 
